@@ -193,6 +193,15 @@ OPS = [
     ('seq_edit_config_object', seq_edit_config_object),
     # a snippet table whose conversion raises half-way, through a shared cache: the failure must be repeatable
     ('css_bad_table', lambda em, e: css(em, e, 'm10', 'C2', None, {'dsp': 'display:block|none|', 'mten': 'margin:10px'})),
+    # snippets are linked to each other (a shorthand property knows its longhands and resolves keywords through them): a table
+    # that redefines a longhand with one more keyword must not change what the shorthand resolves for the holder of another cache
+    ('css_dep_kw', lambda em, e: css(em, e, 'bg:t+bd:da+fl:l', 'C1')),
+    ('css_dep_kw_user', lambda em, e: css(em, e, 'bg:t+bd:da+bgcp', 'C2', None,
+                                          {'bgcp': 'background-clip:padding-box|border-box|content-box|text', 'bds': 'border-style:dark|dashed'})),
+    # a markup caller that keeps a cache dict while its list-valued options change between calls
+    ('m_cache_lists_default', lambda em, e: em.expand('html>head>title^body>p>.k+input[checked title]', {'cache': e['C1']})),
+    ('m_cache_lists_custom', lambda em, e: em.expand('html>head>title^body>p>.k+input[checked title]', {'cache': e['C1'], 'options': {
+        'output.formatSkip': [], 'output.formatForce': ['title'], 'inlineElements': ['p'], 'output.booleanAttributes': ['title']}})),
 ]
 OPNAMES = [o[0] for o in OPS]
 
